@@ -3,7 +3,6 @@
 From AS Require Import Base.
 Local Open Scope N_scope.
 
-Definition is_final (c : char) : bool := (64 <=? c) && (c <=? 126).
 
 Record cseq := { cs_body : str; cs_term : option char }.     (* None = unterminated *)
 
